@@ -65,7 +65,7 @@ func vfH_C14_session_methods() {
 	vfReach("guarded")
 	vfMonitorOn()
 	when := time.Now().Add(time.Duration(vfInt("dl")))
-	switch vfPick("entry", 0, 28) {
+	switch vfPick("entry", 0, 29) {
 	case 0:
 		s.Read(make([]byte, vfPick("rlen", 1, 4)))
 	case 1:
@@ -128,6 +128,12 @@ func vfH_C14_session_methods() {
 		s.packetInput(dg)
 	case 28:
 		s.SetRateLimit(vfU32("rate"))
+	case 29:
+		// consecutive short reads: the second and third are served from the left-over bytes of
+		// the first (a different branch of Read than a fresh message)
+		s.Read(make([]byte, 1))
+		s.Read(make([]byte, 1))
+		s.Read(make([]byte, 4))
 	}
 	vfMonitorOff()
 	vfReach("done")
